@@ -566,6 +566,19 @@ func (c *StructCode) Filter(query *FieldQuery) Code {
 	}
 	fields := make([]*StructFieldCode, 0, len(c.fields))
 	for _, field := range c.fields {
+		if field.isAnonymous && !field.isTaggedKey {
+			// the fields of an embedded struct are members of this struct: the same query selects
+			// among them (and an embedded struct left without fields produces nothing)
+			promoted := *field
+			promoted.value = field.value.Filter(query)
+			if st := promoted.getAnonymousStruct(); st != nil {
+				if len(st.fields) == 0 {
+					continue
+				}
+				fields = append(fields, &promoted)
+				continue
+			}
+		}
 		query, exists := fieldMap[field.key]
 		if !exists {
 			continue
